@@ -192,10 +192,11 @@ impl Prop for C15 {
                 Tier::Thorough => spec().usable_zones().into_iter().map(|(n, _)| n).collect(),
             };
             let nz = zones.len();
+            let time_langs = langs.clone();
             f.push(Family::new(
                 "time",
                 Mode::Full,
-                &format!("times [0:00, 1:05, 11:30, 12:00, 13:45:59, 23:59:59] alone, with each of {} zone names, and with GMT forms [GMT+3, GMT-3:30, GMT+5:45], under default zones UTC and CET, and (bare, with the GMT forms and with every eighth zone name) under the western default zones EST and GMT-3:30", nz),
+                &format!("times [0:00, 1:05, 11:30, 12:00, 13:45:59, 23:59:59] alone, with each of {} zone names, and with GMT forms [GMT+3, GMT-3:30, GMT+5:45], under default zones UTC and CET, and (bare, with the GMT forms and with every eighth zone name) under the western default zones EST and GMT-3:30; in every configured language (a printed time contains no word of a language)", nz),
                 move |ch| {
                     let t = *ch.pick(&["0:00", "1:05", "11:30", "12:00", "13:45:59", "23:59:59"]);
                     let tz = *ch.pick(&[None, Some("CET"), Some("EST"), Some("GMT-3:30")]);
@@ -213,7 +214,12 @@ impl Prop for C15 {
                     };
                     let mut cfg = Cfg::default();
                     cfg.tz = tz.map(|s| s.to_string());
-                    Some(Case { kind: "time".into(), cfg, lang: "en".into(), line })
+                    // a printed time has no word of a language in it: every configured language reads it
+                    let lang = ch.pick(&time_langs).clone();
+                    if lang != "en" && k > 4 && k <= zones.len() {
+                        return None; // the other languages are crossed with the bare time, a few zone names and the GMT forms
+                    }
+                    Some(Case { kind: "time".into(), cfg, lang, line })
                 },
             ));
         }
